@@ -115,7 +115,7 @@ fn strat_svc_orders(t: Tier) -> BoxedStrategy<SvcCase> {
         .boxed()
 }
 
-fn svc_fit<K: Kernel<f64, Vec<f64>> + serde::Serialize>(k: K, case: &SvcCase, seed: u64) -> Result<Result<(serde_json::Value, Vec<f64>, Vec<f64>), String>, String> {
+fn svc_fit<K: Kernel<f64, Vec<f64>> + serde::Serialize + Clone>(k: K, case: &SvcCase, seed: u64) -> Result<Result<(serde_json::Value, Vec<f64>, Vec<f64>), String>, String> {
     let xm = DenseMatrix::from_2d_vec(&case.x);
     let mut all = case.x.clone();
     all.extend(case.fresh.iter().cloned());
@@ -123,11 +123,13 @@ fn svc_fit<K: Kernel<f64, Vec<f64>> + serde::Serialize>(k: K, case: &SvcCase, se
     verif_hooks::set_schedule_seed(Some(seed));
     let r = catch(|| {
         // builder calls in two orders (a setter that rebuilds from the defaults would lose earlier settings)
-        let params = if case.x.len() % 2 == 0 { SVCParameters::default().with_c(case.c).with_epoch(case.epoch).with_tol(case.tol).with_kernel(k) } else { SVCParameters::default().with_kernel(k).with_tol(case.tol).with_epoch(case.epoch).with_c(case.c) };
-        let m = SVC::fit(&xm, &case.y, params).map_err(|e| e.to_string())?;
+        let params: SVCParameters<f64, DenseMatrix<f64>, K> = if case.x.len() % 2 == 0 { SVCParameters::default().with_c(case.c).with_epoch(case.epoch).with_tol(case.tol).with_kernel(k) } else { SVCParameters::default().with_kernel(k).with_tol(case.tol).with_epoch(case.epoch).with_c(case.c) };
+        // inherent entry points, or (every other case) the generic traits of smartcore::api
+        let via_trait = (case.x.len() / 2) % 2 == 1;
+        let m: SVC<f64, DenseMatrix<f64>, _> = if via_trait { sup_fit(&xm, &case.y, params) } else { SVC::fit(&xm, &case.y, params) }.map_err(|e| e.to_string())?;
         let v = serde_json::to_value(&m).map_err(|e| e.to_string())?;
         let d = m.decision_function(&qm).map_err(|e| e.to_string())?;
-        let p = m.predict(&qm).map_err(|e| e.to_string())?;
+        let p: Vec<f64> = if via_trait { tr_predict(&m, &qm) } else { m.predict(&qm) }.map_err(|e| e.to_string())?;
         Ok((v, d, p))
     });
     verif_hooks::set_schedule_seed(None);
@@ -235,16 +237,17 @@ fn strat_svr(t: Tier) -> BoxedStrategy<SvrCase> {
         .boxed()
 }
 
-fn svr_fit<K: Kernel<f64, Vec<f64>> + serde::Serialize>(k: K, case: &SvrCase) -> Result<Result<(serde_json::Value, Vec<f64>), String>, String> {
+fn svr_fit<K: Kernel<f64, Vec<f64>> + serde::Serialize + Clone>(k: K, case: &SvrCase) -> Result<Result<(serde_json::Value, Vec<f64>), String>, String> {
     let xm = DenseMatrix::from_2d_vec(&case.x);
     let mut all = case.x.clone();
     all.extend(case.fresh.iter().cloned());
     let qm = DenseMatrix::from_2d_vec(&all);
     catch(|| {
-        let params = if case.x.len() % 2 == 0 { SVRParameters::default().with_c(case.c).with_eps(case.eps).with_tol(case.tol).with_kernel(k) } else { SVRParameters::default().with_kernel(k).with_tol(case.tol).with_eps(case.eps).with_c(case.c) };
-        let m = SVR::fit(&xm, &case.y, params).map_err(|e| e.to_string())?;
+        let params: SVRParameters<f64, DenseMatrix<f64>, K> = if case.x.len() % 2 == 0 { SVRParameters::default().with_c(case.c).with_eps(case.eps).with_tol(case.tol).with_kernel(k) } else { SVRParameters::default().with_kernel(k).with_tol(case.tol).with_eps(case.eps).with_c(case.c) };
+        let via_trait = (case.x.len() / 2) % 2 == 1;
+        let m: SVR<f64, DenseMatrix<f64>, _> = if via_trait { sup_fit(&xm, &case.y, params) } else { SVR::fit(&xm, &case.y, params) }.map_err(|e| e.to_string())?;
         let v = serde_json::to_value(&m).map_err(|e| e.to_string())?;
-        let p = m.predict(&qm).map_err(|e| e.to_string())?;
+        let p: Vec<f64> = if via_trait { tr_predict(&m, &qm) } else { m.predict(&qm) }.map_err(|e| e.to_string())?;
         Ok((v, p))
     })
 }
